@@ -245,3 +245,248 @@ Proof.
       * inversion Hn; subst gw'. rewrite Nat.add_0_r. exact Hcell'.
       * rewrite <- Nat.add_succ_comm. eapply IH; [exact Htail'| |exact Hn]. apply Hkeep. exact Hng.
 Qed.
+
+(* ---- the frame references, as calls ---- *)
+Definition is_frame_op (o : op) : bool := match o with OFrameRef _ | OFrameUnref _ => true | _ => false end.
+Definition op_preE (h : heap) (o : op) : Prop :=
+  match o with OFrameRef w | OFrameUnref w => findw h w <> None | _ => op_pre h o end.
+Definition effE (o : op) (h h' : heap) : Prop :=
+  match o with OFrameRef w => eff_ref w h h' | OFrameUnref w => eff_unref w h h' | _ => eff o h h' end.
+
+Lemma run_frame_ok : forall fuel o h, hinv [] h -> is_frame_op o = true -> op_preE h o ->
+  match run_op fixed fuel o h with
+  | Ok _ h' => hinv [] h' /\ effE o h h'
+  | Fault _ _ => False
+  | NoFuel => True
+  end.
+Proof.
+  intros fuel o h HI Hfo Hpre. destruct fuel as [|f]; [cbn; exact I|].
+  rewrite run_op_S. unfold bind at 1.
+  assert (Hlog : exists h1, (match o with ONop => ret tt | _ => log_op o end) h = Ok tt h1 /\ hinv [] h1 /\
+                            wins h1 = wins h /\ nextw h1 = nextw h).
+  { destruct o; try discriminate; (eexists; split; [reflexivity|]; split; [apply hinv_log; exact HI|]; split; reflexivity). }
+  destruct Hlog as [h1 [Hrun [HI1 [Hw1 Hnw1]]]]. rewrite Hrun.
+  assert (Fw1 : forall a, findw h1 a = findw h a) by (intro a; unfold findw; rewrite Hw1; reflexivity).
+  destruct o; try discriminate; cbn [op_preE effE] in *.
+  - (* OFrameRef *)
+    rewrite <- Fw1 in Hpre. unfold window_ref.
+    pose proof (upd_links_spec [] w (fun c => set_ref c (w_ref c + 1)) h1 HI1 Hpre) as Hu.
+    assert (Hf : forall c, same_links c (set_ref c (w_ref c + 1)) /\ w_ref c <= w_ref (set_ref c (w_ref c + 1))).
+    { intro c. split; [repeat split|cbn; lia]. }
+    specialize (Hu Hf h1 eq_refl). destruct (upd w _ h1) as [u h2| |]; [|contradiction|exact I].
+    destruct Hu as [HI2 [_ Eh]]. split; [exact HI2|]. subst h2. split; [rewrite nextw_upd_cell; exact Hnw1|].
+    intro x. rewrite findw_upd_cell. rewrite Pos.eqb_sym. rewrite !Fw1. destruct (Pos.eqb x w) eqn:E.
+    + apply Pos.eqb_eq in E. subst x. destruct (findw h w); cbn; auto.
+    + destruct (findw h x); auto.
+  - (* OFrameUnref *)
+    rewrite <- Fw1 in Hpre. destruct (live_some h1 w Hpre) as [c Hw].
+    destruct (life_ok f) as [Hun _]. destruct (life_fate f) as [Huf _].
+    pose proof (Hun [] h1 w HI1 (detached_nil h1) Hpre (fun x => x) h1 eq_refl) as Hu.
+    pose proof (Huf [] h1 w c HI1 (detached_nil h1) Hw (fun x => x)) as Hf.
+    destruct (unref fixed f w h1) as [u h2| |]; [|contradiction|exact I].
+    destruct Hu as [HI2 [_ Sh]]. destruct Hf as [F1 F2]. split; [exact HI2|].
+    split; [rewrite (sh_nextw h1 h2 Sh); exact Hnw1|].
+    split; [intros a Hd; rewrite <- Fw1 in Hd; exact (shrinks_dead h1 h2 a Sh Hd)|].
+    intros c0 Hw0. rewrite <- Fw1 in Hw0. rewrite Hw in Hw0. inversion Hw0; subst c0. split.
+    + intro Er. destruct (F1 Er) as [Ft Hd]. split; [|exact Hd].
+      eapply fate_pre; [exact Ft|]. intros x Hx. rewrite Fw1. destruct (findw h x); auto.
+    + intro Er. intro x. pose proof (F2 Er x) as G. rewrite Fw1 in G. exact G.
+Qed.
+
+(* a call that may be made on this ghost state, with what it needs about frames when a window goes:
+   no frame holds a window attached below it *)
+Definition no_frame_below (g : eghost) (o : op) : Prop :=
+  match o with
+  | OUnref w | OFrameUnref w =>
+    forall xw, nth_error g (idx w) = Some xw -> e_cnt xw + e_fr xw = 1 ->
+    forall i x, nth_error g i = Some x -> edesc g (idx w) i -> e_fr x = 0
+  | _ => True
+  end.
+
+Lemma agreeE_stable : forall g h h', agreeE g h -> stable h h' -> agreeE g h'.
+Proof.
+  intros g h h' [L C] S. constructor; [rewrite (st_nextw h h' S); exact L|].
+  intros i gw Hn. specialize (C i gw Hn). pose proof (st_wins h h' S (addr_of i)) as W.
+  destruct (findw h (addr_of i)) as [c|], (findw h' (addr_of i)) as [c'|]; try contradiction; auto.
+  destruct W as [W1 [W2 _]]. destruct C as (C1 & C2 & C3 & C4). cbn. repeat split; congruence.
+Qed.
+
+(* ref-count changes of one window, everything else as it was *)
+Lemma agreeE_eset : forall g h h' w x x' d,
+  agreeE g h -> nth_error g (idx w) = Some x -> nextw h' = nextw h ->
+  (forall a, match findw h a, findw h' a with
+             | Some c, Some c' => w_parent c' = w_parent c /\ w_ref c' = (if Pos.eqb a w then w_ref c + d else w_ref c)
+             | None, None => True
+             | _, _ => False
+             end) ->
+  findw h w <> None ->
+  e_cnt x' + e_fr x' = e_cnt x + e_fr x + d -> 0 <= e_cnt x' -> 0 <= e_fr x' -> e_par x' = e_par x ->
+  agreeE (eset g (idx w) x') h'.
+Proof.
+  intros g h h' w x x' d AG Hgw Hnw Hx Hl Hsum H0 H1 Hp.
+  constructor; [rewrite Hnw, length_eset; exact (ae_len g h AG)|].
+  intros i gi Hn. rewrite nth_eset in Hn. specialize (Hx (addr_of i)).
+  destruct (Nat.eqb i (idx w)) eqn:E.
+  - apply Nat.eqb_eq in E. subst i. rewrite Hgw in Hn. inversion Hn; subst gi. rewrite addr_idx in *.
+    pose proof (ae_cells g h AG (idx w) x Hgw) as C. rewrite addr_idx in C.
+    destruct (findw h w) as [c|]; [|congruence]. destruct (findw h' w) as [c'|]; [|contradiction].
+    rewrite Pos.eqb_refl in Hx. destruct Hx as [X1 X2]. destruct C as (C1 & C2 & C3 & C4). cbn.
+    repeat split; try lia. congruence.
+  - apply Nat.eqb_neq in E. pose proof (ae_cells g h AG i gi Hn) as C.
+    assert (Ea : Pos.eqb (addr_of i) w = false).
+    { apply Pos.eqb_neq. intro Ea. apply E. rewrite <- Ea. symmetry. apply idx_addr. }
+    rewrite Ea in Hx. destruct (findw h (addr_of i)) as [c|], (findw h' (addr_of i)) as [c'|]; try contradiction; auto.
+    destruct Hx as [X1 X2]. destruct C as (C1 & C2 & C3 & C4). cbn. repeat split; congruence.
+Qed.
+
+Lemma only_ref_as_delta : forall h h' w, only_ref h h' w ->
+  forall a, match findw h a, findw h' a with
+            | Some c, Some c' => w_parent c' = w_parent c /\ w_ref c' = (if Pos.eqb a w then w_ref c + (-1) else w_ref c)
+            | None, None => True
+            | _, _ => False
+            end.
+Proof.
+  intros h h' w H a. specialize (H a). destruct (findw h a), (findw h' a); auto.
+Qed.
+
+Lemma step_agreeE : forall g h o g',
+  hinv [] h -> agreeE g h -> (event_free_op o = true \/ is_frame_op o = true) -> estep g o = Some g' ->
+  no_frame_below g o ->
+  op_preE h o /\ (forall h', effE o h h' -> agreeE g' h').
+Proof.
+  intros g h o g' HI AG Hkind Hstep Hnf.
+  destruct o; (destruct Hkind as [Hk|Hk]; cbn in Hk; try discriminate); cbn [estep] in Hstep; cbn [op_preE op_pre effE eff].
+  - (* ONew *)
+    destruct (eusable g (idx p)) eqn:Hu; [|discriminate]. inversion Hstep; subst g'. clear Hstep.
+    pose proof (agreeE_usable_live g h AG (idx p) Hu) as Hl. rewrite addr_idx in Hl. split; [exact Hl|].
+    intros h' [Hnw [Hold [Hdom [cw [p' [G1 [G2 [G3 G4]]]]]]]].
+    set (pi := if rootparent then etop g (idx p) else idx p).
+    assert (Hpi : addr_of pi = p').
+    { unfold pi. destruct rootparent; [|rewrite G4; apply addr_idx].
+      destruct G4 as [ct [A1 [A2 A3]]].
+      assert (Hlt : (idx p < S (length g))%nat).
+      { destruct (agreeE_live_entry g h HI AG p Hl) as [gw Hn].
+        assert (Hlen : (idx p < length g)%nat) by (apply nth_error_Some; congruence). lia. }
+      assert (Hl' : findw h (addr_of (idx p)) <> None) by (rewrite addr_idx; exact Hl).
+      destruct (agreeE_top g h HI AG (S (length g)) (idx p) Hlt Hl') as [ct' [B1 [B2 B3]]].
+      rewrite addr_idx in B3. unfold etop.
+      destruct (anc_linear h p p' A1 _ B3) as [H|H].
+      - exact (anc_top h p' _ ct H A2 A3).
+      - symmetry. exact (anc_top h _ p' ct' H B1 B2). }
+    constructor.
+    + rewrite Hnw, (ae_len g h AG), app_length. cbn. rewrite Nat.add_1_r. apply addr_succ.
+    + intros i gw Hn. destruct (Nat.lt_ge_cases i (length g)) as [Hlt|Hge].
+      * rewrite nth_error_app1 in Hn by exact Hlt. pose proof (ae_cells g h AG i gw Hn) as C.
+        destruct (findw h (addr_of i)) as [c|] eqn:Hf.
+        -- destruct (Hold _ c Hf) as [c' [H1 [H2 H3]]]. rewrite H1. destruct C as (C1 & C2 & C3 & C4). cbn. repeat split; congruence.
+        -- rewrite Hdom; auto. rewrite (ae_len g h AG). intro E. apply addr_inj in E. lia.
+      * rewrite nth_error_app2 in Hn by exact Hge. destruct (i - length g)%nat as [|d] eqn:Ed; cbn in Hn.
+        -- inversion Hn; subst gw. assert (i = length g) by lia. subst i. rewrite <- (ae_len g h AG). rewrite G1.
+           cbn. repeat split; try lia. fold pi. rewrite Hpi. congruence.
+        -- destruct d; discriminate.
+  - (* ORef *)
+    destruct (eheld g (idx w)) eqn:Hh; [|discriminate]. inversion Hstep; subst g'. clear Hstep.
+    pose proof (agreeE_held_live g h AG (idx w) Hh) as Hl. rewrite addr_idx in Hl. split; [exact Hl|].
+    intros h' [Hnw Hx]. unfold eupd.
+    destruct (agreeE_live_entry g h HI AG w Hl) as [gw Hgw]. unfold eget. rewrite Hgw.
+    pose proof (ae_cells g h AG (idx w) gw Hgw) as C. rewrite addr_idx in C.
+    destruct (findw h w) as [c|] eqn:Hw; [|congruence]. destruct C as (C1 & C2 & C3 & C4).
+    eapply (agreeE_eset g h h' w gw _ 1 AG Hgw Hnw); cbn; try lia; auto. rewrite Hw. discriminate.
+  - (* OUnref *)
+    unfold eget in Hstep. destruct (nth_error g (idx w)) as [x|] eqn:Hgw; [|discriminate].
+    destruct (0 <? e_cnt x) eqn:Hpos; [|discriminate]. apply Z.ltb_lt in Hpos.
+    pose proof (ae_cells g h AG (idx w) x Hgw) as C. rewrite addr_idx in C.
+    destruct (findw h w) as [c|] eqn:Hw; [|destruct C as (C1 & C2 & _); lia]. destruct C as (C1 & C2 & C3 & C4).
+    split; [congruence|]. intros h' [Hnw [Hdead Hx]]. destruct (Hx c Hw) as [X1 X2].
+    destruct (e_cnt x + e_fr x =? 1) eqn:E1.
+    + apply Z.eqb_eq in E1. inversion Hstep; subst g'. clear Hstep.
+      destruct (X1 ltac:(lia)) as [Ft Hwd]. unfold edestroy.
+      constructor; [rewrite Hnw, length_edestroy_pass; exact (ae_len g h AG)|].
+      intros i gi Hn.
+      pose proof (edestroy_pass_agree g h h' w c HI AG Hw Ft Hwd Hdead (Hnf x Hgw E1) g 0%nat []) as P.
+      apply (P (fun k gw Hk => Hk)); [|exact Hn].
+      intro j. split; [intros []|intros [Hlt _]; lia].
+    + apply Z.eqb_neq in E1. inversion Hstep; subst g'. clear Hstep.
+      assert (Hne : w_ref c <> 1) by lia. specialize (X2 Hne).
+      eapply (agreeE_eset g h h' w x _ (-1) AG Hgw Hnw (only_ref_as_delta _ _ _ X2)); cbn; try lia; auto. rewrite Hw. discriminate.
+  - (* OClose *)
+    unfold eget in Hstep. destruct (nth_error g (idx w)) as [x|] eqn:Hgw; [|discriminate].
+    destruct ((0 <? e_cnt x) && match e_par x with Some _ => true | None => Nat.eqb (idx w) 0 end) eqn:Hc; [|discriminate].
+    inversion Hstep; subst g'. clear Hstep. apply andb_prop in Hc. destruct Hc as [Hpos _]. apply Z.ltb_lt in Hpos.
+    pose proof (ae_cells g h AG (idx w) x Hgw) as C. rewrite addr_idx in C.
+    destruct (findw h w) as [c|] eqn:Hw; [|destruct C as (C1 & C2 & _); lia]. split; [congruence|].
+    intros h' [Hnw [Hdead [Hoth [cw [cw' [G1 [G2 [G3 G4]]]]]]]]. rewrite Hw in G1. inversion G1; subst cw.
+    constructor; [rewrite Hnw, length_eset; exact (ae_len g h AG)|].
+    intros i gi Hn. rewrite nth_eset in Hn. destruct (Nat.eqb i (idx w)) eqn:E.
+    + apply Nat.eqb_eq in E. subst i. rewrite Hgw in Hn. inversion Hn; subst gi. rewrite addr_idx. rewrite G2.
+      destruct C as (C1 & C2 & C3 & C4). cbn. repeat split; try lia; congruence.
+    + apply Nat.eqb_neq in E. pose proof (ae_cells g h AG i gi Hn) as Ci.
+      assert (Ea : addr_of i <> w) by (intro Ea; apply E; rewrite <- Ea; symmetry; apply idx_addr).
+      destruct (findw h (addr_of i)) as [ci|] eqn:Hfi.
+      * destruct (Hoth _ ci Ea Hfi) as [ci' [H1 [H2 H3]]]. rewrite H1. destruct Ci as (D1 & D2 & D3 & D4). cbn. repeat split; congruence.
+      * rewrite (Hdead _ Hfi). exact Ci.
+  - (* ORestack *)
+    destruct (is_restack c && eusable g (idx w)) eqn:Hc; [|discriminate]. inversion Hstep; subst g'.
+    apply andb_prop in Hc. destruct Hc as [Hrs Hu].
+    pose proof (agreeE_usable g h AG (idx w) Hu) as Ha. rewrite addr_idx in Ha.
+    pose proof (anc_live_l h w root Ha) as Hl. destruct (live_some h w Hl) as [cw Hw].
+    split; [split; [exact Hrs|exists cw; auto]|]. intros h' S. eapply agreeE_stable; eauto.
+  - destruct (eusable g (idx w)) eqn:Hu; [|discriminate]. inversion Hstep; subst g'.
+    pose proof (agreeE_usable_live g h AG (idx w) Hu) as Hl. rewrite addr_idx in Hl.
+    split; [exact Hl|]. intros h' S. eapply agreeE_stable; eauto.
+  - destruct (eusable g (idx w)) eqn:Hu; [|discriminate]. inversion Hstep; subst g'.
+    pose proof (agreeE_usable_live g h AG (idx w) Hu) as Hl. rewrite addr_idx in Hl.
+    split; [exact Hl|]. intros h' S. eapply agreeE_stable; eauto.
+  - destruct (eusable g (idx w)) eqn:Hu; [|discriminate]. inversion Hstep; subst g'.
+    pose proof (agreeE_usable g h AG (idx w) Hu) as Ha. rewrite addr_idx in Ha.
+    split; [exact Ha|]. intros h' S. eapply agreeE_stable; eauto.
+  - destruct (eusable g (idx w)) eqn:Hu; [|discriminate]. inversion Hstep; subst g'.
+    pose proof (agreeE_usable_live g h AG (idx w) Hu) as Hl. rewrite addr_idx in Hl.
+    split; [exact Hl|]. intros h' S. eapply agreeE_stable; eauto.
+  - destruct (eusable g (idx w)) eqn:Hu; [|discriminate]. inversion Hstep; subst g'.
+    pose proof (agreeE_usable_live g h AG (idx w) Hu) as Hl. rewrite addr_idx in Hl.
+    split; [exact Hl|]. intros h' S. eapply agreeE_stable; eauto.
+  - destruct (eusable g (idx w)) eqn:Hu; [|discriminate]. inversion Hstep; subst g'.
+    pose proof (agreeE_usable g h AG (idx w) Hu) as Ha. rewrite addr_idx in Ha.
+    split; [exact Ha|]. intros h' S. eapply agreeE_stable; eauto.
+  - destruct (Nat.eqb (idx w) 0 && eusable g 0) eqn:Hc; [|discriminate]. inversion Hstep; subst g'.
+    apply andb_prop in Hc. destruct Hc as [E0 Hu]. apply Nat.eqb_eq in E0.
+    assert (Ew : w = root) by (rewrite <- (addr_idx w), E0; reflexivity).
+    pose proof (agreeE_usable_live g h AG 0%nat Hu) as Hl.
+    split; [split; [exact Ew|exact Hl]|]. intros h' S. eapply agreeE_stable; eauto.
+  - destruct (eusable g (idx w)) eqn:Hu; [|discriminate]. inversion Hstep; subst g'.
+    pose proof (agreeE_usable_live g h AG (idx w) Hu) as Hl. rewrite addr_idx in Hl.
+    split; [exact Hl|]. intros h' S. eapply agreeE_stable; eauto.
+  - destruct (eusable g (idx w)) eqn:Hu; [|discriminate]. inversion Hstep; subst g'.
+    pose proof (agreeE_usable_live g h AG (idx w) Hu) as Hl. rewrite addr_idx in Hl.
+    split; [exact Hl|]. intros h' S. eapply agreeE_stable; eauto.
+  - destruct (eusable g (idx w)) eqn:Hu; [|discriminate]. inversion Hstep; subst g'.
+    pose proof (agreeE_usable_live g h AG (idx w) Hu) as Hl. rewrite addr_idx in Hl.
+    split; [exact Hl|]. intros h' S. eapply agreeE_stable; eauto.
+  - inversion Hstep; subst g'. split; [exact I|]. intros h' S. eapply agreeE_stable; eauto.
+  - (* OFrameRef *)
+    destruct (ealive g (idx w)) eqn:Hh; [|discriminate]. inversion Hstep; subst g'. clear Hstep.
+    pose proof (agreeE_alive_live g h AG (idx w) Hh) as Hl. rewrite addr_idx in Hl. split; [exact Hl|].
+    intros h' [Hnw Hx]. unfold eupd.
+    destruct (agreeE_live_entry g h HI AG w Hl) as [gw Hgw]. unfold eget. rewrite Hgw.
+    pose proof (ae_cells g h AG (idx w) gw Hgw) as C. rewrite addr_idx in C.
+    destruct (findw h w) as [c|] eqn:Hw; [|congruence]. destruct C as (C1 & C2 & C3 & C4).
+    eapply (agreeE_eset g h h' w gw _ 1 AG Hgw Hnw); cbn; try lia; auto. rewrite Hw. discriminate.
+  - (* OFrameUnref *)
+    unfold eget in Hstep. destruct (nth_error g (idx w)) as [x|] eqn:Hgw; [|discriminate].
+    destruct (0 <? e_fr x) eqn:Hpos; [|discriminate]. apply Z.ltb_lt in Hpos.
+    pose proof (ae_cells g h AG (idx w) x Hgw) as C. rewrite addr_idx in C.
+    destruct (findw h w) as [c|] eqn:Hw; [|destruct C as (C1 & C2 & _); lia]. destruct C as (C1 & C2 & C3 & C4).
+    split; [congruence|]. intros h' [Hnw [Hdead Hx]]. destruct (Hx c Hw) as [X1 X2].
+    destruct (e_cnt x + e_fr x =? 1) eqn:E1.
+    + apply Z.eqb_eq in E1. inversion Hstep; subst g'. clear Hstep.
+      destruct (X1 ltac:(lia)) as [Ft Hwd]. unfold edestroy.
+      constructor; [rewrite Hnw, length_edestroy_pass; exact (ae_len g h AG)|].
+      intros i gi Hn.
+      pose proof (edestroy_pass_agree g h h' w c HI AG Hw Ft Hwd Hdead (Hnf x Hgw E1) g 0%nat []) as P.
+      apply (P (fun k gw Hk => Hk)); [|exact Hn].
+      intro j. split; [intros []|intros [Hlt _]; lia].
+    + apply Z.eqb_neq in E1. inversion Hstep; subst g'. clear Hstep.
+      assert (Hne : w_ref c <> 1) by lia. specialize (X2 Hne).
+      eapply (agreeE_eset g h h' w x _ (-1) AG Hgw Hnw (only_ref_as_delta _ _ _ X2)); cbn; try lia; auto. rewrite Hw. discriminate.
+Qed.
